@@ -400,15 +400,18 @@ Definition reannounce_ok (log : list (client * list request)) : Prop :=
   forall c sent, In (c, sent) log -> includes sent (on_open_required c) = true.
 
 Definition witness_r : bytes := [Byte.x72].   (* "r" *)
-Definition witness_history : list cevent := [CRegisterResource witness_r; CConnLost; CReconnect].
+Definition witness_a : bytes := [Byte.x61].   (* "a" *)
+Definition witness_history : list cevent :=
+  [CReconnect witness_a; CRegisterResource witness_r; CConnLost true; CReconnect witness_a].
 
 (* the full statement is FALSE for the code as it is: one resource, one reconnect *)
 Theorem reannounce_refuted :
   exists evs, ~ reannounce_ok (snd (crun cinit evs)).
 Proof.
   exists witness_history. intro H.
-  specialize (H {| cl_resources := [witness_r]; cl_connected := false |} [RegisterTM]).
-  cbn in H. assert (false = true) by (apply H; now left). discriminate.
+  specialize (H {| cl_resources := [witness_r]; cl_cur := None;
+                   cl_server := [(witness_a, 1)]; cl_all := 0 |} [RegisterTM]).
+  cbn in H. assert (false = true) by (apply H; right; now left). discriminate.
 Qed.
 
 Lemma crun_log c evs c0 sent :
@@ -417,12 +420,17 @@ Proof.
   revert c. induction evs as [|e evs IH]; intros c H; cbn in H; [contradiction|].
   destruct (cstep c e) as [c' out] eqn:E. destruct (crun c' evs) as [cf rest] eqn:R.
   cbn in H. specialize (IH c'). rewrite R in IH. cbn in IH.
-  destruct e; cbn in E; inversion E; subst; auto.
-  destruct H as [H|H]; [now inversion H|auto].
+  destruct e; cbn in E.
+  - inversion E; subst; auto.
+  - destruct (cl_cur c); inversion E; subst; auto.
+  - inversion E; subst. destruct H as [H|H]; [now inversion H|auto].
 Qed.
 
-(* strongest true statement: every new session carries RegisterTM, and it carries
-   everything required exactly when no resource had been registered before *)
+(* strongest true statement, over ALL histories (connections lost with the session
+   still open or already closed by the peer, reconnects to the same or to another
+   address, any number of times, whatever the per-address map holds): every new
+   session carries RegisterTM, and it carries everything required exactly when no
+   resource had been registered before *)
 Theorem reannounce_partial evs c sent :
   In (c, sent) (snd (crun cinit evs)) ->
   In RegisterTM sent /\
@@ -433,3 +441,10 @@ Proof.
   - intro Hc. unfold on_open_required. rewrite Hc. reflexivity.
   - intro Hne. unfold on_open_required. destruct (cl_resources c) as [|r rs]; [congruence|]. reflexivity.
 Qed.
+
+(* the per-address map: a connection lost with the session already closed leaves
+   its entry behind; one lost while open removes it *)
+Lemma stale_entry_stays c a :
+  cl_cur c = Some a ->
+  cnt_of (cl_server (fst (cstep c (CConnLost true)))) a = cnt_of (cl_server c) a.
+Proof. intro H. cbn. now rewrite H. Qed.
